@@ -119,8 +119,11 @@ fn opt_res<T>(out: &mut String, key: &str, r: Option<io::Result<T>>, f: impl FnO
 }
 
 /// Number of further items drained (without rendering) once the cap is reached, to tell a long but finite
-/// count-driven iterator (16-bit counts) from one that does not end.
-pub const DRAIN: usize = 65_536;
+/// count-driven iterator from one that does not end. The widest count a lazy record takes from its input
+/// without a matching amount of data is BCF's 24-bit `n_sample` (a record with no FORMAT fields is consistent
+/// with any sample count), so an iterator is only called non-terminating once it has delivered more items
+/// than any 24-bit count explains.
+pub const DRAIN: usize = (1 << 24) + 65_536;
 pub const LONG: &str = "long-iterator=";
 
 /// Iterates `it` up to the cap, calling `f` for every item. Past the cap up to [`DRAIN`] further items are
